@@ -4,6 +4,7 @@ package checks
 import (
 	"fmt"
 	"hash/fnv"
+	"math"
 	"math/rand"
 	"sort"
 	"strings"
@@ -99,9 +100,10 @@ func randomCfg(r *rand.Rand, must ...string) world.Cfg {
 	}
 	c.StoreTZ = []int{0, 0, 13 * 3600, -11 * 3600, 5*3600 + 1800}[r.Intn(5)]
 	c.NilSessionState = r.Intn(3) == 0
+	c.Localizer = []string{"", "", "empty", "partial"}[r.Intn(4)]
 	c.LockAfter = 1 + r.Intn(4)
 	c.LockWindow = pickD(r, 5*time.Minute, 30*time.Second, 2*time.Hour)
-	c.LockDuration = pickD(r, 12*time.Hour, time.Minute, 10*time.Second)
+	c.LockDuration = pickD(r, 12*time.Hour, time.Minute, 10*time.Second, 12*time.Hour, time.Minute, time.Duration(math.MaxInt64)) // the last one: "for ever" (a lock until the year 2300-something)
 	c.ExpireAfter = pickD(r, time.Hour, 90*time.Second, 37*time.Hour)
 	c.RecoverTTL = pickD(r, 24*time.Hour, 10*time.Minute)
 	if r.Intn(2) == 0 {
